@@ -351,7 +351,8 @@ def check(prop, tier, seed):
                 return "C01/" + tail
             if prop == "C04" and ("quiesce-rejected" in sig or "srcclose-rejected" in sig or "aclose" in sig):
                 return "C04/" + tail
-            if prop == "C06" and ("failed-rejected" in sig or ("error-" in sig and "aclose" not in sig)):
+            failed = any(isinstance(st, list) and st and st[0] == "fail" for st in d.get("path", []))
+            if prop == "C06" and ("failed-rejected" in sig or ("error-" in sig and "aclose" not in sig) or (failed and "end-rejected" in sig)):
                 return "C06/" + tail
             return None
 
